@@ -64,6 +64,9 @@ func buildModCatalog() []mCfg {
 	c = append(c, mCfg{stacking: 6, dur: 2, count: 1, max: 5, cadd: 1, status: 1, hooks: map[string][]mAct{"OnAdd": {{kind: "D", name: 0, a: 1}}}})                                    // 22
 	c = append(c, mCfg{stacking: 3, dur: 3, status: 2, dispel: true, hooks: map[string][]mAct{"OnDispel": {{kind: "A", name: 3, a: 1, b: 1}}}})                                        // 23
 	c = append(c, mCfg{stacking: 3, dur: 2, status: 1, hooks: map[string][]mAct{"OnPropertyChange": {{kind: "D", name: 24, a: 0}}}})                                                   // 24: observes property changes
+	c = append(c, mCfg{stacking: 3, dur: 2, status: 1, dispel: true, hooks: map[string][]mAct{"OnExtendDuration": {{kind: "S"}}}})           // 25: leaves when extended
+	c = append(c, mCfg{stacking: 3, dur: 3, status: 2, dispel: true, hooks: map[string][]mAct{"OnExtendDuration": {{kind: "R", name: 14}}}}) // 26: removes an earlier modifier when extended
+	c = append(c, mCfg{stacking: 3, count: 2, max: 6, cadd: 1, status: 1, hooks: map[string][]mAct{"OnExtendCount": {{kind: "S"}}}})         // 27: leaves when its count is extended
 	return c
 }
 
@@ -449,6 +452,9 @@ func (modComp) Gen(r *rand.Rand, tier string, n int) []*wire.Case {
 		turn(1), turn(1), turn(1), one(wire.R("rm").I("t", 1).I("name", 16)), one(add(1, 21, 2, 0, 0, "")), turn(1), turn(1))...)
 	mk("d-extend", add(1, 3, 1, 2, 2, ""), add(1, 3, 2, 2, 0, ""), wire.R("extdur").I("t", 1).I("name", 3).I("n", 2), wire.R("extcnt").I("t", 1).I("name", 3).I("n", 1), wire.R("extcnt").I("t", 1).I("name", 3).I("n", -3),
 		wire.R("rmsrc").I("t", 1).I("src", 2).I("name", 3))
+	mk("d-extend-reentrant", add(1, 14, 1, 0, 0, ""), add(1, 25, 1, 1, 0, ""), add(1, 25, 2, 2, 0, ""), add(1, 25, 3, 3, 0, ""), wire.R("extdur").I("t", 1).I("name", 25).I("n", 2),
+		add(1, 26, 1, 1, 0, ""), add(1, 26, 2, 2, 0, ""), add(1, 26, 3, 3, 0, ""), wire.R("extdur").I("t", 1).I("name", 26).I("n", 2),
+		add(1, 27, 1, 0, 2, ""), add(1, 27, 2, 0, 2, ""), add(1, 27, 3, 0, 2, ""), wire.R("extcnt").I("t", 1).I("name", 27).I("n", 1))
 	mk("d-stats", add(1, 3, 1, 0, 0, atk), add(1, 3, 2, 0, 0, atk+"|"+red), add(1, 24, 1, 0, 0, ""), add(1, 19, 1, 0, 0, ""), add(1, 19, 1, 0, 0, ""), wire.R("rm").I("t", 1).I("name", 3),
 		wire.R("mutsnap").I("t", 1).I("p", int(prop.ATKPercent)).F("x", 5), wire.R("rm").I("t", 1).I("name", 19))
 	mk("d-shared-desc", add(1, 3, 1, 0, 0, atk).S("share", "a"), add(2, 3, 1, 0, 0, atk).S("share", "a"), wire.R("instprop").I("t", 1).I("uid", 1).I("p", int(prop.ATKPercent)).F("x", 0.5),
@@ -463,7 +469,7 @@ func (modComp) Gen(r *rand.Rand, tier string, n int) []*wire.Case {
 			t := pick(r, 1, 1, 2, 3)
 			name := r.Intn(len(modCatalog))
 			if r.Intn(2) == 0 {
-				name = pick(r, 0, 1, 2, 3, 3, 4, 5, 6, 10, 14)
+				name = pick(r, 0, 1, 2, 3, 3, 4, 5, 6, 10, 14, 25, 26, 27, 25, 26)
 			}
 			switch r.Intn(16) {
 			case 0, 1, 2, 3, 4, 5:
